@@ -241,12 +241,13 @@ macro_rules! with_method {
             // variants with bit 96: a closure of the OTHER kind is installed first (the two share one slot: the later call
             // wins, and nothing of the first one may stay behind)
             "each" => {
-                let mut b = if $spec.variant / 96 % 2 == 1 { b.filter(&mut d_filter).for_each(&mut f_each) } else { b.for_each(&mut f_each) };
+                // (bit 192: a closure of the SAME kind is installed first and replaced)
+                let mut b = if $spec.variant / 96 % 2 == 1 { b.filter(&mut d_filter).for_each(&mut f_each) } else if $spec.variant / 192 % 2 == 1 { b.for_each(&mut d_each).for_each(&mut f_each) } else { b.for_each(&mut f_each) };
                 $cfg!(b, $post);
                 $run!(b)
             }
             "filter" => {
-                let mut b = if $spec.variant / 96 % 2 == 1 { b.for_each(&mut d_each).filter(&mut f_filter) } else { b.filter(&mut f_filter) };
+                let mut b = if $spec.variant / 96 % 2 == 1 { b.for_each(&mut d_each).filter(&mut f_filter) } else if $spec.variant / 192 % 2 == 1 { b.filter(&mut d_filter).filter(&mut f_filter) } else { b.filter(&mut f_filter) };
                 $cfg!(b, $post);
                 $run!(b)
             }
@@ -1670,6 +1671,28 @@ macro_rules! ext_mod {
                                                 }
                                                 if bad {
                                                     ctx.fail(case, li, "c13", format!("text keys, {}: the Ok graph has a node or edge the document does not declare, or lacks a declared node", t[2]));
+                                                }
+                                                // and the graph with text keys survives a round trip of its own (C12's statement)
+                                                let shape = |g: &GS| -> Vec<(String, i64, Vec<(String, u32)>)> {
+                                                    let mut v: Vec<(String, i64, Vec<(String, u32)>)> = g.iter().map(|(k, n)| {
+                                                        let mut l = own_list_str(n).0;
+                                                        if !DIRECTED {
+                                                            l.sort();
+                                                        }
+                                                        (k.clone(), *n.value(), l)
+                                                    }).collect();
+                                                    v.sort();
+                                                    v
+                                                };
+                                                let back: Result<GS, String> = if t[2] == "json" {
+                                                    serde_json::to_vec(g).map_err(|e| e.to_string()).and_then(|b| serde_json::from_slice::<GS>(&b).map_err(|e| e.to_string()))
+                                                } else {
+                                                    serde_cbor::to_vec(g).map_err(|e| e.to_string()).and_then(|b| serde_cbor::from_slice::<GS>(&b).map_err(|e| e.to_string()))
+                                                };
+                                                match back {
+                                                    Ok(g2) if shape(&g2) == shape(g) => {}
+                                                    Ok(g2) => ctx.fail(case, li, "c13", format!("text keys, {}: serialising the graph and reading it back changes it: {:?} became {:?}", t[2], shape(g), shape(&g2))),
+                                                    Err(m) => ctx.fail(case, li, "c13", format!("text keys, {}: serialising the graph and reading it back fails: {m}", t[2])),
                                                 }
                                             }
                                             _ => {}
